@@ -366,7 +366,7 @@ func (gb *gcpBalancer) getReadySubConnRef(boundKey string) (*subConnRef, bool) {
 					return gb.scRefs[sc], true
 				}
 				// Try to create fallback mapping.
-				if scRef, err := gb.picker.(*gcpPicker).getLeastBusySubConnRef(); err == nil {
+				if scRef := gb.leastBusyReadyRef(); scRef != nil {
 					gb.fallbackMap[boundKey] = scRef.subConn
 					return scRef, true
 				}
@@ -376,6 +376,24 @@ func (gb *gcpBalancer) getReadySubConnRef(boundKey string) (*subConnRef, bool) {
 		return gb.scRefs[sc], true
 	}
 	return nil, false
+}
+
+// leastBusyReadyRef returns the READY subConnRef with the fewest active streams
+// from the current picker's snapshot, or nil if there is none. Unlike
+// gcpPicker.getLeastBusySubConnRef it never grows the pool and takes no lock,
+// so it is safe to call while holding gb.mu.
+func (gb *gcpBalancer) leastBusyReadyRef() *subConnRef {
+	gp, ok := gb.picker.(*gcpPicker)
+	if !ok || len(gp.scRefs) == 0 {
+		return nil
+	}
+	minScRef := gp.scRefs[0]
+	for _, scRef := range gp.scRefs {
+		if scRef.getStreamsCnt() < minScRef.getStreamsCnt() {
+			minScRef = scRef
+		}
+	}
+	return minScRef
 }
 
 func (gb *gcpBalancer) getSubConnRoundRobin(ctx context.Context) *subConnRef {
